@@ -137,6 +137,18 @@ pub fn run(case: &Value) -> Value {
                 service: None,
             };
             out.push(("debug_s3_request", format!("{req:?}")));
+            // the input side: what loading a key (clean, padded with whitespace as a secrets file would leave it, empty) can say
+            for (label, text) in [("clean", sk.clone()), ("trailing_newline", format!("{sk}\n")), ("crlf", format!("{sk}\r\n")), ("leading_blank", format!(" {sk}"))] {
+                let doc = serde_json::to_string(&text).unwrap();
+                match serde_json::from_str::<SecretKey>(&doc) {
+                    Ok(k) => out.push(("deserialize_ok_debug", format!("{label}: {k:?}"))),
+                    Err(e) => out.push(("deserialize_error", format!("{label}: {e} / {e:?}"))),
+                }
+                let doc = format!("{{\"access_key\":\"AKIDVERIF\",\"secret_key\":{doc}}}");
+                if let Err(e) = serde_json::from_str::<std::collections::HashMap<String, SecretKey>>(&doc) {
+                    out.push(("deserialize_map_error", format!("{label}: {e} / {e:?}")));
+                }
+            }
             let auth = s3s::auth::SimpleAuth::from_single("AKIDVERIF", sk.as_str());
             out.push(("debug_simple_auth", format!("{auth:?}")));
             json!({"renderings": out.into_iter().map(|(k, v)| json!([k, to_hex(v.as_bytes())])).collect::<Vec<_>>()})
